@@ -1,1 +1,531 @@
-fn main(){}
+//! Helper child for the real-process tiers.  Independent of the `subprocess`
+//! crate and of the harness library (no interposition in here).
+//!
+//! Mode selection: if the directory of /proc/self/exe contains a file
+//! `.vcmode`, its first line is the mode and the following lines are the
+//! mode's parameters (used when argv and the environment are under test).
+//! Otherwise argv[1] is the mode and argv[2..] the parameters.
+use std::ffi::CString;
+use std::io::{Read, Write};
+use std::os::unix::ffi::OsStringExt;
+
+fn hex(b: &[u8]) -> String {
+    let mut s = String::with_capacity(b.len() * 2);
+    for x in b {
+        s.push_str(&format!("{:02x}", x));
+    }
+    s
+}
+
+fn die(msg: &str) -> ! {
+    let _ = writeln!(std::io::stderr(), "vchild: {}", msg);
+    unsafe { libc::_exit(98) }
+}
+
+fn raw_environ() -> Vec<Vec<u8>> {
+    extern "C" {
+        static environ: *const *const libc::c_char;
+    }
+    let mut v = vec![];
+    unsafe {
+        let mut p = environ;
+        if p.is_null() {
+            return v;
+        }
+        while !(*p).is_null() {
+            v.push(std::ffi::CStr::from_ptr(*p).to_bytes().to_vec());
+            p = p.add(1);
+        }
+    }
+    v
+}
+
+fn proc_status_field(name: &str) -> String {
+    let s = std::fs::read_to_string("/proc/self/status").unwrap_or_default();
+    for l in s.lines() {
+        if let Some(rest) = l.strip_prefix(name) {
+            return rest.trim_start_matches(':').trim().to_string();
+        }
+    }
+    String::new()
+}
+
+fn same_description(a: i32, b: i32) -> bool {
+    // file status flags live in the open file description: toggle O_NONBLOCK
+    // through `a`, look through `b`, restore.
+    unsafe {
+        let fa = libc::fcntl(a, libc::F_GETFL);
+        let fb = libc::fcntl(b, libc::F_GETFL);
+        if fa < 0 || fb < 0 {
+            return false;
+        }
+        if libc::fcntl(a, libc::F_SETFL, fa ^ libc::O_NONBLOCK) < 0 {
+            return false;
+        }
+        let fb2 = libc::fcntl(b, libc::F_GETFL);
+        libc::fcntl(a, libc::F_SETFL, fa);
+        (fb ^ fb2) & libc::O_NONBLOCK != 0
+    }
+}
+
+fn fd_info(fd: i32) -> String {
+    unsafe {
+        let mut st: libc::stat = std::mem::zeroed();
+        if libc::fstat(fd, &mut st) != 0 {
+            return format!("{{\"fd\":{},\"open\":false}}", fd);
+        }
+        let fl = libc::fcntl(fd, libc::F_GETFL);
+        let fdfl = libc::fcntl(fd, libc::F_GETFD);
+        let off = libc::lseek(fd, 0, libc::SEEK_CUR);
+        format!(
+            "{{\"fd\":{},\"open\":true,\"dev\":{},\"ino\":{},\"fmt\":{},\"acc\":{},\"flags\":{},\"cloexec\":{},\"offset\":{}}}",
+            fd,
+            st.st_dev,
+            st.st_ino,
+            st.st_mode & libc::S_IFMT,
+            fl & libc::O_ACCMODE,
+            fl,
+            fdfl & libc::FD_CLOEXEC,
+            off
+        )
+    }
+}
+
+fn open_fds() -> Vec<(i32, String)> {
+    let mut v = vec![];
+    if let Ok(rd) = std::fs::read_dir("/proc/self/fd") {
+        for e in rd.flatten() {
+            if let Ok(n) = e.file_name().to_string_lossy().parse::<i32>() {
+                let t = std::fs::read_link(e.path()).map(|p| p.to_string_lossy().into_owned()).unwrap_or_default();
+                v.push((n, t));
+            }
+        }
+    }
+    v.sort();
+    v
+}
+
+fn write_atomic(path: &str, data: &[u8]) {
+    let tmp = format!("{}.tmp", path);
+    if let Ok(mut f) = std::fs::File::create(&tmp) {
+        let _ = f.write_all(data);
+        let _ = f.sync_data();
+    }
+    unsafe {
+        let c = CString::new(tmp.clone()).unwrap();
+        libc::chmod(c.as_ptr(), 0o666);
+    }
+    let _ = std::fs::rename(&tmp, path);
+}
+
+/// mode `report <prefix> [act]`: write everything about ourselves to
+/// `<prefix>.<pid>.json`.  With act=1: afterwards set a distinct offset on each
+/// seekable standard stream and write tags to stdout and stderr.
+fn mode_report(params: &[String], argv: &[Vec<u8>]) -> ! {
+    let prefix = params.first().cloned().unwrap_or_else(|| die("report: missing prefix"));
+    let act = params.get(1).map(|s| s == "1").unwrap_or(false);
+    let hold = params.get(2).map(|s| s.as_str()).unwrap_or("");
+    let pid = unsafe { libc::getpid() };
+    // fds first, before we open anything ourselves
+    let fds_before = open_fds();
+    let mut s = String::new();
+    s.push_str("{");
+    s.push_str(&format!("\"pid\":{},\"ppid\":{},\"pgid\":{},\"sid\":{},", pid, unsafe { libc::getppid() }, unsafe { libc::getpgid(0) }, unsafe { libc::getsid(0) }));
+    s.push_str(&format!("\"uid\":{},\"euid\":{},\"gid\":{},\"egid\":{},", unsafe { libc::getuid() }, unsafe { libc::geteuid() }, unsafe { libc::getgid() }, unsafe { libc::getegid() }));
+    s.push_str(&format!("\"argv\":[{}],", argv.iter().map(|a| format!("\"{}\"", hex(a))).collect::<Vec<_>>().join(",")));
+    s.push_str(&format!("\"env\":[{}],", raw_environ().iter().map(|a| format!("\"{}\"", hex(a))).collect::<Vec<_>>().join(",")));
+    let exe = std::fs::read_link("/proc/self/exe").map(|p| p.into_os_string().into_vec()).unwrap_or_default();
+    s.push_str(&format!("\"exe\":\"{}\",", hex(&exe)));
+    unsafe {
+        let mut st: libc::stat = std::mem::zeroed();
+        let dot = CString::new(".").unwrap();
+        if libc::stat(dot.as_ptr(), &mut st) == 0 {
+            s.push_str(&format!("\"cwd_dev\":{},\"cwd_ino\":{},", st.st_dev, st.st_ino));
+        } else {
+            s.push_str("\"cwd_dev\":0,\"cwd_ino\":0,");
+        }
+    }
+    let cwd = std::env::current_dir().map(|p| p.into_os_string().into_vec()).unwrap_or_default();
+    s.push_str(&format!("\"cwd\":\"{}\",", hex(&cwd)));
+    s.push_str(&format!("\"sigblk\":\"{}\",\"sigign\":\"{}\",\"sigcgt\":\"{}\",", proc_status_field("SigBlk"), proc_status_field("SigIgn"), proc_status_field("SigCgt")));
+    s.push_str(&format!("\"fds\":[{},{},{}],", fd_info(0), fd_info(1), fd_info(2)));
+    s.push_str(&format!("\"same01\":{},\"same02\":{},\"same12\":{},", same_description(0, 1), same_description(0, 2), same_description(1, 2)));
+    if hold == "readstdin" {
+        let mut h: u64 = 0xcbf29ce484222325;
+        let mut n: u64 = 0;
+        let mut b = [0u8; 65536];
+        loop {
+            let r = unsafe { libc::read(0, b.as_mut_ptr() as *mut _, b.len()) };
+            if r <= 0 {
+                break;
+            }
+            fnv(&mut h, &b[..r as usize]);
+            n += r as u64;
+        }
+        s.push_str(&format!("\"stdin_len\":{},\"stdin_fnv\":{},", n, h));
+    }
+    s.push_str(&format!(
+        "\"open_fds\":[{}]",
+        fds_before.iter().map(|(n, t)| format!("[{},\"{}\"]", n, hex(t.as_bytes()))).collect::<Vec<_>>().join(",")
+    ));
+    s.push('}');
+    if act {
+        unsafe {
+            for fd in 0..3 {
+                if libc::lseek(fd, 0, libc::SEEK_CUR) >= 0 {
+                    libc::lseek(fd, 1000 + 100 * fd as libc::off_t, libc::SEEK_SET);
+                }
+            }
+            let t1 = format!("<TAG1:{}>", pid);
+            let t2 = format!("<TAG2:{}>", pid);
+            libc::write(1, t1.as_ptr() as *const _, t1.len());
+            libc::write(2, t2.as_ptr() as *const _, t2.len());
+        }
+    }
+    write_atomic(&format!("{}.{}.json", prefix, pid), s.as_bytes());
+    match hold {
+        "hold" => loop {
+            unsafe { libc::pause() };
+        },
+        "holdread" => {
+            let mut b = [0u8; 4096];
+            loop {
+                let n = unsafe { libc::read(0, b.as_mut_ptr() as *mut _, b.len()) };
+                if n <= 0 {
+                    break;
+                }
+            }
+        }
+        _ => {}
+    }
+    unsafe { libc::_exit(0) }
+}
+
+/// mode `stage <tag> <nlines> <delay_ms> <exit_code> <markerdir> <idx>`:
+/// pipeline filter: output = "<tag>[" + input + "]<tag>"; writes nlines tagged
+/// lines to stderr; optional delay after closing stdout; exits with exit_code.
+fn mode_stage(p: &[String]) -> ! {
+    if p.len() < 6 {
+        die("stage: need 6 parameters");
+    }
+    let tag = &p[0];
+    let nlines: u32 = p[1].parse().unwrap_or(0);
+    let delay: u64 = p[2].parse().unwrap_or(0);
+    let code: i32 = p[3].parse().unwrap_or(0);
+    let marker = format!("{}/started.{}", p[4], p[5]);
+    write_atomic(&marker, format!("{}", unsafe { libc::getpid() }).as_bytes());
+    let mut out = std::io::stdout();
+    let mut err = std::io::stderr();
+    let _ = out.write_all(format!("{}[", tag).as_bytes());
+    for i in 0..nlines / 2 {
+        let _ = err.write_all(format!("E:{}:{}\n", tag, i).as_bytes());
+    }
+    let mut b = [0u8; 65536];
+    let mut inp = std::io::stdin();
+    loop {
+        match inp.read(&mut b) {
+            Ok(0) => break,
+            Ok(n) => {
+                if out.write_all(&b[..n]).is_err() {
+                    unsafe { libc::_exit(77) }
+                }
+            }
+            Err(_) => break,
+        }
+    }
+    let _ = out.write_all(format!("]{}", tag).as_bytes());
+    let _ = out.flush();
+    for i in nlines / 2..nlines {
+        let _ = err.write_all(format!("E:{}:{}\n", tag, i).as_bytes());
+    }
+    unsafe {
+        libc::close(1);
+        libc::close(0);
+    }
+    if delay > 0 {
+        std::thread::sleep(std::time::Duration::from_millis(delay));
+    }
+    unsafe { libc::_exit(code) }
+}
+
+/// mode `script <report> <op>...`: ops over the real standard streams:
+///   r<n> one read of up to n; R read stdin to EOF; c<to>,<n> copy one read to
+///   <to>; C<to> cat; w<to>,<n> write n generated bytes; x<fd> close;
+///   s<ms> sleep; e exit.  Generated bytes use the same content function as the
+///   simulator (Hash flavour).  Report: bytes received (len, fnv), EOF flag.
+fn content_byte(stream: u8, pos: u64) -> u8 {
+    let x = (pos.wrapping_add(stream as u64 * 7919)).wrapping_mul(0x9E3779B97F4A7C15);
+    ((x >> 29) ^ (x >> 51)) as u8
+}
+fn fnv(h: &mut u64, data: &[u8]) {
+    for b in data {
+        *h ^= *b as u64;
+        *h = h.wrapping_mul(0x100000001b3);
+    }
+}
+fn wr_all(fd: i32, mut data: &[u8]) -> bool {
+    while !data.is_empty() {
+        let n = unsafe { libc::write(fd, data.as_ptr() as *const _, data.len()) };
+        if n <= 0 {
+            return false;
+        }
+        data = &data[n as usize..];
+    }
+    true
+}
+fn mode_script(p: &[String]) -> ! {
+    let report = p.first().cloned().unwrap_or_else(|| die("script: missing report path"));
+    let mut h: u64 = 0xcbf29ce484222325;
+    let mut nread: u64 = 0;
+    let mut eof = false;
+    let mut pos = [0u64; 3];
+    let mut buf = vec![0u8; 1 << 16];
+    let finish = |h: u64, nread: u64, eof: bool, pos: [u64; 3], why: &str| -> ! {
+        write_atomic(&report, format!("{{\"read\":{},\"fnv\":{},\"eof\":{},\"wrote1\":{},\"wrote2\":{},\"end\":\"{}\"}}", nread, h, eof, pos[1], pos[2], why).as_bytes());
+        unsafe { libc::_exit(0) }
+    };
+    let mut rd = |n: usize, buf: &mut Vec<u8>, h: &mut u64, nread: &mut u64, eof: &mut bool| -> usize {
+        let n = n.clamp(1, buf.len());
+        let r = unsafe { libc::read(0, buf.as_mut_ptr() as *mut _, n) };
+        if r <= 0 {
+            *eof = r == 0;
+            return 0;
+        }
+        fnv(h, &buf[..r as usize]);
+        *nread += r as u64;
+        r as usize
+    };
+    for op in &p[1..] {
+        let (c, rest) = op.split_at(1);
+        match c {
+            "r" => {
+                rd(rest.parse().unwrap_or(1), &mut buf, &mut h, &mut nread, &mut eof);
+            }
+            "R" => loop {
+                if rd(65536, &mut buf, &mut h, &mut nread, &mut eof) == 0 {
+                    break;
+                }
+            },
+            "c" => {
+                let mut it = rest.split(',');
+                let to: i32 = it.next().and_then(|s| s.parse().ok()).unwrap_or(1);
+                let n: usize = it.next().and_then(|s| s.parse().ok()).unwrap_or(1);
+                let k = rd(n, &mut buf, &mut h, &mut nread, &mut eof);
+                if k > 0 && !wr_all(to, &buf[..k]) {
+                    finish(h, nread, eof, pos, "epipe");
+                }
+            }
+            "C" => {
+                let to: i32 = rest.parse().unwrap_or(1);
+                loop {
+                    let k = rd(65536, &mut buf, &mut h, &mut nread, &mut eof);
+                    if k == 0 {
+                        break;
+                    }
+                    if !wr_all(to, &buf[..k]) {
+                        finish(h, nread, eof, pos, "epipe");
+                    }
+                }
+            }
+            "w" => {
+                let mut it = rest.split(',');
+                let to: usize = it.next().and_then(|s| s.parse().ok()).unwrap_or(1);
+                let n: u64 = it.next().and_then(|s| s.parse().ok()).unwrap_or(0);
+                let data: Vec<u8> = (0..n).map(|i| content_byte(to as u8, pos[to] + i)).collect();
+                if !wr_all(to as i32, &data) {
+                    finish(h, nread, eof, pos, "epipe");
+                }
+                pos[to] += n;
+            }
+            "x" => unsafe {
+                libc::close(rest.parse().unwrap_or(0));
+            },
+            "s" => std::thread::sleep(std::time::Duration::from_millis(rest.parse().unwrap_or(0))),
+            "e" => finish(h, nread, eof, pos, "exit"),
+            _ => die("script: bad op"),
+        }
+    }
+    finish(h, nread, eof, pos, "end")
+}
+
+extern "C" fn on_sig(sig: i32) {
+    // async-signal-safe: one write of "<sig>\n" to the log fd
+    let fd = SIGLOG_FD.load(std::sync::atomic::Ordering::Relaxed);
+    let mut b = [0u8; 8];
+    let mut n = sig;
+    let mut i = 6;
+    b[7] = b'\n';
+    loop {
+        b[i] = b'0' + (n % 10) as u8;
+        n /= 10;
+        if n == 0 {
+            break;
+        }
+        i -= 1;
+    }
+    unsafe {
+        libc::write(fd, b[i..].as_ptr() as *const _, 8 - i);
+    }
+    if sig == libc::SIGTERM {
+        unsafe { libc::_exit(0) }
+    }
+}
+static SIGLOG_FD: std::sync::atomic::AtomicI32 = std::sync::atomic::AtomicI32::new(2);
+
+/// mode `sigreport <logfile>`: log every catchable signal received; SIGTERM ends.
+fn mode_sigreport(p: &[String]) -> ! {
+    let path = p.first().cloned().unwrap_or_else(|| die("sigreport: missing path"));
+    let c = CString::new(path.clone()).unwrap();
+    let fd = unsafe { libc::open(c.as_ptr(), libc::O_WRONLY | libc::O_CREAT | libc::O_APPEND, 0o666) };
+    if fd < 0 {
+        die("sigreport: cannot open log");
+    }
+    SIGLOG_FD.store(fd, std::sync::atomic::Ordering::SeqCst);
+    unsafe {
+        for sig in 1..65 {
+            if sig == libc::SIGKILL || sig == libc::SIGSTOP || sig == 32 || sig == 33 || sig == libc::SIGALRM {
+                continue;
+            }
+            libc::signal(sig, on_sig as usize);
+        }
+    }
+    write_atomic(&format!("{}.ready", path), b"ready");
+    loop {
+        unsafe { libc::pause() };
+    }
+}
+
+fn main() {
+    unsafe { libc::alarm(600) };
+    let argv: Vec<Vec<u8>> = std::env::args_os().map(|a| a.into_vec()).collect();
+    // sidecar mode file next to the executable?
+    let exe = std::fs::read_link("/proc/self/exe").ok();
+    let mut mode: Option<(String, Vec<String>)> = None;
+    if let Some(dir) = exe.as_ref().and_then(|e| e.parent().map(|p| p.to_path_buf())) {
+        if let Ok(s) = std::fs::read_to_string(dir.join(".vcmode")) {
+            let mut lines = s.lines().map(|l| l.to_string());
+            if let Some(m) = lines.next() {
+                mode = Some((m, lines.collect()));
+            }
+        }
+    }
+    let (mode, params) = match mode {
+        Some(m) => m,
+        None => {
+            let a: Vec<String> = argv.iter().map(|b| String::from_utf8_lossy(b).into_owned()).collect();
+            if a.len() < 2 {
+                die("no mode");
+            }
+            (a[1].clone(), a[2..].to_vec())
+        }
+    };
+    match mode.as_str() {
+        "report" => mode_report(&params, &argv),
+        "stage" => mode_stage(&params),
+        "script" => mode_script(&params),
+        "sigreport" => mode_sigreport(&params),
+        "hold" => loop {
+            unsafe { libc::pause() };
+        },
+        "holdread" => {
+            // read stdin to EOF, then exit with the given code
+            let mut b = [0u8; 4096];
+            loop {
+                let n = unsafe { libc::read(0, b.as_mut_ptr() as *mut _, b.len()) };
+                if n <= 0 {
+                    break;
+                }
+            }
+            let code: i32 = params.first().and_then(|s| s.parse().ok()).unwrap_or(0);
+            unsafe { libc::_exit(code) }
+        }
+        "exit" => {
+            let code: i32 = params.first().and_then(|s| s.parse().ok()).unwrap_or(0);
+            unsafe { libc::_exit(code) }
+        }
+        "sleepexit" => {
+            let ms: u64 = params.first().and_then(|s| s.parse().ok()).unwrap_or(0);
+            let code: i32 = params.get(1).and_then(|s| s.parse().ok()).unwrap_or(0);
+            std::thread::sleep(std::time::Duration::from_millis(ms));
+            unsafe { libc::_exit(code) }
+        }
+        "selfkill" => {
+            let sig: i32 = params.first().and_then(|s| s.parse().ok()).unwrap_or(9);
+            unsafe {
+                // make sure the default action applies and core files are not written
+                let rl = libc::rlimit { rlim_cur: 0, rlim_max: 0 };
+                libc::setrlimit(libc::RLIMIT_CORE, &rl);
+                libc::signal(sig, libc::SIG_DFL);
+                let mut set: libc::sigset_t = std::mem::zeroed();
+                libc::sigemptyset(&mut set);
+                libc::sigprocmask(libc::SIG_SETMASK, &set, std::ptr::null_mut());
+                libc::kill(libc::getpid(), sig);
+                libc::pause();
+                libc::_exit(99)
+            }
+        }
+        "flood" => {
+            // write to the given fd until it fails; exit 77 on EPIPE error
+            let fd: i32 = params.first().and_then(|s| s.parse().ok()).unwrap_or(1);
+            let b = [b'x'; 4096];
+            loop {
+                let n = unsafe { libc::write(fd, b.as_ptr() as *const _, b.len()) };
+                if n < 0 {
+                    unsafe { libc::_exit(77) }
+                }
+            }
+        }
+        "writeexit" => {
+            // write N bytes of 'y' to fd, then exit with code
+            let fd: i32 = params.first().and_then(|s| s.parse().ok()).unwrap_or(1);
+            let n: usize = params.get(1).and_then(|s| s.parse().ok()).unwrap_or(0);
+            let code: i32 = params.get(2).and_then(|s| s.parse().ok()).unwrap_or(0);
+            let data = vec![b'y'; n];
+            let ok = wr_all(fd, &data);
+            unsafe { libc::_exit(if ok { code } else { 77 }) }
+        }
+        "argvhexcat" => {
+            // copy stdin to stdout, then print own argv in hex (pipeline order check)
+            let mut b = [0u8; 65536];
+            loop {
+                let n = unsafe { libc::read(0, b.as_mut_ptr() as *mut _, b.len()) };
+                if n <= 0 {
+                    break;
+                }
+                if !wr_all(1, &b[..n as usize]) {
+                    unsafe { libc::_exit(77) }
+                }
+            }
+            let mut s = String::new();
+            for (i, a) in argv.iter().enumerate() {
+                if i > 0 {
+                    s.push(' ');
+                }
+                s.push_str(&hex(a));
+                if a.is_empty() {
+                    s.push('-');
+                }
+            }
+            s.push('\n');
+            let _ = wr_all(1, s.as_bytes());
+            unsafe { libc::_exit(0) }
+        }
+        "argvhex" => {
+            // print argv (from argv[2] on when selected by argv[1]) in hex, one line
+            let mut s = String::new();
+            for (i, a) in argv.iter().enumerate() {
+                if i > 0 {
+                    s.push(' ');
+                }
+                s.push_str(&hex(a));
+                if a.is_empty() {
+                    s.push('-');
+                }
+            }
+            s.push('\n');
+            let _ = std::io::stdout().write_all(s.as_bytes());
+            unsafe { libc::_exit(0) }
+        }
+        _ => die("unknown mode"),
+    }
+}
